@@ -87,7 +87,7 @@ Grid == {[d |-> d, s |-> s, us |-> u, ns |-> 0] : d \in GridDays, s \in GridSecs
 SelfMode == Obs = <<>>
 \* calendar mode (PvData.DayRange # {}): one state per day number of the range, for the invariants that speak about one
 \* instant only (RoundTripNs, RoundTripPv, NextDay, CarryOk): the whole calendar 1970..2100 instead of the grid days
-AllDays == {[d |-> d, s |-> s, us |-> u, ns |-> 0] : d \in DayRange, s \in {0, 86399}, u \in {0, 999999}}
+AllDays == {[d |-> d, s |-> x[1], us |-> x[2], ns |-> 0] : d \in DayRange, x \in {<<0, 0>>, <<86399, 999999>>}}
 Init == IF SelfMode THEN i = 0 /\ inst \in (IF DayRange = {} THEN Grid ELSE AllDays)
                     ELSE i \in 1..Len(Obs) /\ inst = [d |-> 0, s |-> 0, us |-> 0, ns |-> 0]
 Next == FALSE /\ UNCHANGED vars
